@@ -442,6 +442,9 @@ fn w4(name: &str, run: &Run, mode: &str, l: &mut Local) {
         l.act("W4");
         if timer < now {
             l.act("W4-overdue");
+            if mode.is_empty() {
+                l.act("W4-overdue-plain");
+            }
         }
         let bound = timer.max(now + 1);
         let asked = g.poll_timeout_ms.map(|t| now + t);
